@@ -1,5 +1,5 @@
 (* C15 — Decoding ignores read chunking; truncation and I/O errors are reported. *)
-From RK Require Import Base Utf8 NQ NQTotal NQOffsets RuneBuf RuneBufProofs.
+From RK Require Import Base Utf8 NQ NQTotal NQOffsets RuneBuf RuneBufProofs NQTruncate.
 
 (* every partition of the byte stream into Read calls: the rune buffer (model of bufio.Reader.ReadRune under
    cursorioutil.RuneBuffer: refill while the buffered bytes are not a full rune) hands the decoder the runes of the
@@ -17,6 +17,13 @@ Print Assumptions C15_nq_ignores_chunking.
 Theorem C15_nq_io_error_reported : forall nq inp, snd (decode nq inp TFail) <> VOk.
 Proof. exact decode_io_error_reported. Qed.
 Print Assumptions C15_nq_io_error_reported.
+
+(* truncation: cut the input anywhere, let the reader fail there; the statements delivered are the first statements of
+   the whole input, however that one ends: nothing is invented or altered by a cut *)
+Theorem C15_nq_truncated_prefix : forall nq inp rest t,
+  exists more, fst (decode nq (inp ++ rest) t) = fst (decode nq inp TFail) ++ more.
+Proof. exact decode_truncated_prefix. Qed.
+Print Assumptions C15_nq_truncated_prefix.
 
 (* non-vacuity: a rune split over three Read calls; input stopping inside a statement; failing reader *)
 Example C15_example :
